@@ -254,12 +254,17 @@ class Evaluation:
                 return self.ref.ev(r["out"][0], env)
             return {n: self.ref.ev(e, env) for n, e in zip(T["outputs"], r["out"])}
         ms = [r for r in T["rules"] if all(holds(t, v) for t, v in zip(r["in"], vals))]
+        def nomatch():
+            d = T.get("defaults")
+            if d and d[0] is not None and len(T["outputs"]) == 1:
+                return self.ref.ev(d[0], env)       # the default output entry, evaluated like an output entry
+            return None
         if T["hp"] == "U":
             if len(ms) > 1:
                 raise Unspecified("unique table with several matches")
-            return out(ms[0]) if ms else None
+            return out(ms[0]) if ms else nomatch()
         if T["hp"] == "F":
-            return out(ms[0]) if ms else None
+            return out(ms[0]) if ms else nomatch()
         if not ms:
             raise Unspecified("collect table without a match")
         return [out(r) for r in ms]
